@@ -511,6 +511,7 @@ COMBINATORS = {
     "std::ops::FnMut::call_mut": "always",
     "std::ops::Fn::call": "always",
     "std::thread::spawn": "spawned",
+    "std::panic::catch_unwind": "always",
     "std::sync::Once::call_once": "maybe",
     "std::iter::Iterator::map": "maybe",
     "std::iter::Iterator::fold": "maybe",
@@ -526,6 +527,12 @@ def closure_args(f, t):
             o = o[1]
         if o[0] == "closure":
             out.append(o[1])
+        elif o[0] == "agg" and o[3]:
+            # a closure wrapped in a newtype (AssertUnwindSafe(|| ..), Box::new is a call and not covered)
+            for x in o[3]:
+                x = simplify(x)
+                while x[0] in ("ref", "deref"): x = x[1]
+                if x[0] == "closure": out.append(x[1])
     return out
 
 # ------------------------------------------------------------------------------------------------
